@@ -124,6 +124,26 @@ def num_literal(v):
     return s
 
 
+def num_varied(v, rng):
+    """other spellings of the same non-negative finite number"""
+    s = num_literal(v)
+    c = rng.random()
+    if c < 0.6:
+        return s
+    if c < 0.75 and '.' not in s and 'e' not in s:
+        return s + '.0'
+    if c < 0.9 and v == int(v) and v >= 10 and v % 10 == 0 and v < 1e15:
+        k = 0
+        iv = int(v)
+        while iv % 10 == 0 and iv > 0:
+            iv //= 10
+            k += 1
+        return '%de%d' % (iv, k)
+    if v != 0 and v < 1 and v * 1000 == int(v * 1000):
+        return '%de-3' % int(v * 1000)
+    return s
+
+
 class Printer:
     """Emits Laythe text. layout=None gives the canonical one-statement-per-line
     form; a random.Random gives varied whitespace, redundant parentheses,
@@ -223,9 +243,12 @@ class Printer:
             elif v < 0 or (v == 0 and str(v).startswith('-')):
                 self.w('-' + num_literal(-v))
             else:
-                self.w(num_literal(v))
+                self.w(num_varied(v, self.rng) if self.rng is not None else num_literal(v))
         elif k == 'str':
-            self.w(quote(n.a))
+            if self.rng is not None and self.rng.random() < 0.5:
+                self.w(quote_varied(n.a, self.rng))
+            else:
+                self.w(quote(n.a))
         elif k == 'bool':
             self.w('true' if n.a else 'false')
         elif k == 'nil':
@@ -524,6 +547,31 @@ def escape(s):
 
 def quote(s):
     return '"' + escape(s) + '"'
+
+
+def quote_varied(s, rng):
+    """the same string value spelled differently: single quotes, unicode
+    escapes for some characters, \\r \\t \\0 escapes"""
+    q = rng.choice(['"', "'"])
+    out = []
+    for c in s:
+        if c == '\\':
+            out.append('\\\\')
+        elif c == q:
+            out.append('\\' + q)
+        elif c == '\n':
+            out.append('\\n')
+        elif c == '\t':
+            out.append('\\t')
+        elif c == '\r':
+            out.append('\\r')
+        elif c == '$':
+            out.append('$')
+        elif (ord(c) > 127 or c.isalpha()) and rng.random() < 0.3:
+            out.append('\\u{%x}' % ord(c))
+        else:
+            out.append(c)
+    return q + ''.join(out) + q
 
 
 def to_source(stmts, layout=None, **kw):
